@@ -41,13 +41,13 @@ QUICK = [
                 "MaxModStmts": "1"}, None),
     ("dotuse", {"Fam": "<- FamDotUse", "LitPool": "<- Lits2", "Names": "<- Names1", "BinOps": "<- Ops2",
                 "Prelude": "<- PreDot", "MaxN": "4", "MaxStk": "3", "MaxStmts": "1"}, None),
-    ("sim", {"Fam": "<- FamSim", "LitPool": "<- LitsMix", "Names": "<- NamesTop", "BinOps": "<- OpsAll",
+    ("sim", {"Fam": "<- FamSim", "LitPool": "<- LitsMix", "Names": "<- NamesTop", "BinOps": "<- OpsAll", "ConPool": "<- Cons1",
              "Prelude": "<- PreSim", "MaxN": "9", "MaxD": "5", "MaxStk": "4", "MaxCtx": "3", "MaxStmts": "4",
              "MaxModStmts": "2", "Ill0": "1"}, (1500, 70)),
     # --no-strict: a missing field or index is NULL instead of a failure (machines and reference with Strict = FALSE)
     ("data-ns", {"Fam": "<- FamData", "LitPool": "<- Lits2", "Names": "<- Names1", "BinOps": "<- Ops2",
                  "TyNames": "<- TySome", "Prelude": "<- PreData", "MaxN": "3", "MaxStmts": "1", "Strict": "FALSE"}, None),
-    ("sim-ns", {"Fam": "<- FamSim", "LitPool": "<- LitsMix", "Names": "<- NamesTop", "BinOps": "<- OpsAll",
+    ("sim-ns", {"Fam": "<- FamSim", "LitPool": "<- LitsMix", "Names": "<- NamesTop", "BinOps": "<- OpsAll", "ConPool": "<- Cons1",
                 "Prelude": "<- PreSim", "MaxN": "9", "MaxD": "5", "MaxStk": "4", "MaxCtx": "3", "MaxStmts": "4",
                 "MaxModStmts": "2", "Ill0": "1", "Strict": "FALSE"}, (700, 70)),
 ]
@@ -315,7 +315,7 @@ THOROUGH = [
                 "MaxModStmts": "1"}, None),
     ("dotuse", {"Fam": "<- FamDotUse", "LitPool": "<- Lits2", "Names": "<- Names1", "BinOps": "<- Ops2",
                 "Prelude": "<- PreDot", "MaxN": "5", "MaxStk": "3", "MaxStmts": "1"}, None),
-    ("sim", {"Fam": "<- FamSim", "LitPool": "<- LitsMix", "Names": "<- NamesTop", "BinOps": "<- OpsAll",
+    ("sim", {"Fam": "<- FamSim", "LitPool": "<- LitsMix", "Names": "<- NamesTop", "BinOps": "<- OpsAll", "ConPool": "<- Cons1",
              "Prelude": "<- PreSim", "MaxN": "12", "MaxD": "6", "MaxStk": "4", "MaxCtx": "3", "MaxStmts": "12",
              "MaxModStmts": "2", "Ill0": "2"}, (60000, 160)),
 ]
